@@ -815,6 +815,23 @@ void cursor_level(Ctx& cx, View v, Cursor& c, ScriptState& ss, u64 inst_start);
 
 // Calls a member through its named accessor or, when by_tag is set, through
 // sbepp::get_by_tag / set_by_tag with the member's tag (cursor forms).
+template<class TagT, class V, class Cur, class = void>
+struct has_get_by_tag_cursor : std::false_type
+{
+};
+template<class TagT, class V, class Cur>
+struct has_get_by_tag_cursor<TagT, V, Cur, std::void_t<decltype(sbepp::get_by_tag<TagT>(std::declval<V>(), std::declval<Cur>()))>> : std::true_type
+{
+};
+template<class TagT, class V, class Val, class Cur, class = void>
+struct has_set_by_tag_cursor : std::false_type
+{
+};
+template<class TagT, class V, class Val, class Cur>
+struct has_set_by_tag_cursor<TagT, V, Val, Cur, std::void_t<decltype(sbepp::set_by_tag<TagT>(std::declval<V>(), std::declval<Val>(), std::declval<Cur>()))>> : std::true_type
+{
+};
+
 template<class TagT, class Acc>
 struct ByTagOrNamed
 {
@@ -828,16 +845,28 @@ struct ByTagOrNamed
     template<class V, class Cur>
     decltype(auto) operator()(V&& v, Cur&& cur) const
     {
-        if(by_tag) return sbepp::get_by_tag<TagT>(v, std::forward<Cur>(cur));
+        if constexpr(has_get_by_tag_cursor<TagT, V&, Cur&&>::value)
+        {
+            if(by_tag) return sbepp::get_by_tag<TagT>(v, std::forward<Cur>(cur));
+        }
+        else if(by_tag)
+            api_gap_slot() = "sbepp::get_by_tag<Tag>(view, cursor) is not callable although view.member(cursor) is";
         return named(v, std::forward<Cur>(cur));
     }
     template<class V, class Val, class Cur>
     void operator()(V&& v, Val&& val, Cur&& cur) const
     {
-        if(by_tag)
-            sbepp::set_by_tag<TagT>(v, std::forward<Val>(val), std::forward<Cur>(cur));
-        else
-            named(v, std::forward<Val>(val), std::forward<Cur>(cur));
+        if constexpr(has_set_by_tag_cursor<TagT, V&, Val&&, Cur&&>::value)
+        {
+            if(by_tag)
+            {
+                sbepp::set_by_tag<TagT>(v, std::forward<Val>(val), std::forward<Cur>(cur));
+                return;
+            }
+        }
+        else if(by_tag)
+            api_gap_slot() = "sbepp::set_by_tag<Tag>(view, value, cursor) is not callable although view.member(value, cursor) is";
+        named(v, std::forward<Val>(val), std::forward<Cur>(cur));
     }
 };
 
@@ -1162,6 +1191,31 @@ void level_op(Ctx& cx, View v)
 }
 
 template<class L, class View, class TagId>
+void at_level(Ctx& cx, View v, std::size_t depth);
+
+// entry<Byte> -> entry<const Byte> through the converting constructor (the bounds must travel along)
+template<template<class> class V, class B>
+V<const B> to_const_view(V<B> v)
+{
+    return V<const B>{v};
+}
+
+template<class Child, class TagId, class E>
+void descend_entry(Ctx& cx, E e, std::size_t depth)
+{
+    if constexpr(!is_ro<E>())
+    {
+        if(cx.rq->entry_to_const)
+        {
+            auto ce = to_const_view(e);
+            at_level<Child, decltype(ce), TagId>(cx, ce, depth);
+            return;
+        }
+    }
+    at_level<Child, E, TagId>(cx, e, depth);
+}
+
+template<class L, class View, class TagId>
 void at_level(Ctx& cx, View v, std::size_t depth)
 {
     const Req& rq = *cx.rq;
@@ -1209,14 +1263,14 @@ void at_level(Ctx& cx, View v, std::size_t depth)
                 }
             };
             auto e = pick();
-            at_level<Child, decltype(e), TagId>(cx, e, depth + 1);
+            descend_entry<Child, TagId>(cx, e, depth + 1);
         }
         else
         {
             auto it = g.begin();
             for(u64 i = 0; i < st.entry; i++) ++it;
             auto e = *it;
-            at_level<Child, decltype(e), TagId>(cx, e, depth + 1);
+            descend_entry<Child, TagId>(cx, e, depth + 1);
         }
     });
 }
